@@ -36,6 +36,9 @@ Inductive event :=
 | EvLogs (l : list N)         (* logsFeed: []*types.Log *)
 | EvRemoved (l : list N)      (* rmLogsFeed: RemovedLogsEvent *)
 | EvHead (h : N)              (* chainHeadFeed: ChainHeadEvent *)
+| EvPurgeReplace              (* not a feed: bc.txLookupCache.Purge() in writeHeadBlock when it replaces a
+                                 different canonical block at its height (since /repo 34cd8539c8; the
+                                 legacy cache semantics of Chain/LookupCache.v ignores this marker) *)
 | EvPurge.                    (* not a feed: bc.txLookupCache.Purge() (end of reorg, setHeadBeyondRoot,
                                  a new BlockChain instance) -- what the cached public lookup path
                                  BlockChain.GetCanonicalTransaction depends on; see Run/C38.v *)
@@ -125,7 +128,15 @@ Definition write_head_block (fuel : nat) (st : db) (x : hdr) : option db :=
                (fst x) (fst x) (fst x))
   end.
 
-(* writeHeadBlock over a list of blocks, oldest first (reorg's "Apply new blocks") *)
+(* writeHeadBlock's "replaced" flag: the slot at the block's height holds another hash;
+   then, after the batch is written, the tx lookup cache is purged (34cd8539c8) *)
+Definition whb_replaces (c : N -> option N) (x : hdr) : bool :=
+  match c (hnum x) with Some old => negb (old =? fst x) | None => false end.
+Definition whb_purge (c : N -> option N) (x : hdr) : list event :=
+  if whb_replaces c x then [EvPurgeReplace] else [].
+
+(* writeHeadBlock over a list of blocks, oldest first (reorg's "Apply new blocks"; the
+   purges it may cause there are subsumed by reorg's own final Purge) *)
 Definition fold_whb (fuel : nat) (l : list hdr) (st : db) : option db :=
   fold_left (fun acc x => match acc with Some s => write_head_block fuel s x | None => None end)
             l (Some st).
@@ -236,7 +247,7 @@ Definition write_known_block (fuel : nat) (st : db) (x : hdr) : res (db * list e
   match reorg_if_needed fuel st x with
   | Err e => Err e
   | Ok (st1, ev) => match write_head_block fuel st1 x with
-                    | Some st2 => Ok (st2, ev)
+                    | Some st2 => Ok (st2, ev ++ whb_purge (canon st1) x)
                     | None => Err EOutOfFuel
                     end
   end.
@@ -266,7 +277,8 @@ Definition write_block_and_set_head (fuel : nat) (st : db) (x : hdr) : res (db *
       match write_head_block fuel st2 x with
       | None => Err EOutOfFuel
       | Some st3 =>
-        Ok (st3, ev ++ [EvChain (fst x)] ++ (match b_logs (snd x) with [] => [] | l => [EvLogs l] end))
+        Ok (st3, ev ++ whb_purge (canon st2) x ++ [EvChain (fst x)] ++
+                 (match b_logs (snd x) with [] => [] | l => [EvLogs l] end))
       end
     end
   end.
@@ -487,7 +499,7 @@ Definition set_canonical (fuel : nat) (st : db) (x : hdr) : outcome :=
       match write_head_block fuel st2 x with
       | None => (st1, ev1, Some EOutOfFuel)   (* model artefact: nothing applied *)
       | Some st3 =>
-        (st3, ev1 ++ ev2 ++ [EvChain (fst x)] ++
+        (st3, ev1 ++ ev2 ++ whb_purge (canon st2) x ++ [EvChain (fst x)] ++
               (match logs_of st3 x with [] => [] | l => [EvLogs l] end) ++ [EvHead (fst x)], None)
       end
     end
